@@ -1,5 +1,254 @@
-import WnVerif.Model.Lmf
+/-
+C20 — invalid WN-LMF is rejected as a whole; `is_lmf` agrees with the header check of `load`.
+Theorems over `Model/LmfScan.lean` (header, `is_lmf`) and the structural checks of the loader in
+`Model/Lmf.lean` (`treeOk`, `loadTree`), plus the obligations that tie the model's tables to the
+tables regenerated from `wn/lmf.py` (`Gen/Lmf.lean`).
+-/
 import WnVerif.Model.LmfScan
+import WnVerif.Model.Lmf
+import WnVerif.Gen.Lmf
 namespace WnVerif.Props.C20
-theorem placeholder_true : True := trivial
+open WnVerif.LmfScan WnVerif.Lmf
+
+/-! ### tie to the source: the tables of the model are the tables of `lmf.py` -/
+
+theorem C20_gen_xmldecl : Gen.lmf_xmldecl = xmldecl := by decide
+theorem C20_gen_versions : Gen.lmf_versions = versions := by decide
+theorem C20_gen_doctypes : Gen.lmf_doctypes = versions.map (fun v => (doctypeOf v, v)) := by decide
+/-- every element name valid in version v (and the key it is stored under) -/
+theorem C20_gen_elems_1_0 : (∀ n ∈ elems10, n ∈ Gen.lmf_elems_1_0.map (·.1)) ∧ (∀ n ∈ Gen.lmf_elems_1_0.map (·.1), n ∈ elems10) := by decide
+theorem C20_gen_elems_1_1 : (∀ n ∈ elems11, n ∈ Gen.lmf_elems_1_1.map (·.1)) ∧ (∀ n ∈ Gen.lmf_elems_1_1.map (·.1), n ∈ elems11) := by decide
+theorem C20_gen_elems_later : Gen.lmf_elems_1_2 = Gen.lmf_elems_1_1 ∧ Gen.lmf_elems_1_3 = Gen.lmf_elems_1_1 := by decide
+theorem C20_gen_keys : ∀ p ∈ Gen.lmf_elems_1_1, keyOf p.1 = p.2 := by decide
+/-- single-valued = valid element that is not in `_LIST_ELEMS` -/
+theorem C20_gen_single_valued : ∀ p ∈ Gen.lmf_elems_1_1, singleValued p.1 = !Gen.lmf_list_elems.contains p.1 := by decide
+
+/-! ### header -/
+
+theorem rstrip_prefix (s : List Char) : ∃ t, s = rstrip s ++ t := by
+  unfold rstrip
+  refine ⟨(s.reverse.takeWhile isAsciiWs).reverse, ?_⟩
+  rw [← List.reverse_append, List.takeWhile_append_dropWhile, List.reverse_reverse]
+
+theorem dq_eq_of_ne (c : Char) (d : Char) (hd : d ≠ '"') (h : (if c == '\'' then '"' else c) = d) : c = d := by
+  split at h
+  · exact absurd h.symm hd
+  · exact h
+
+/-- a first line accepted by `_read_header` starts with `<?xml ` -/
+theorem header_isXml (l1 : List Char) (h : dq (rstrip l1) = xmldecl.toList) : isXml l1 = true := by
+  obtain ⟨t, ht⟩ := rstrip_prefix l1
+  generalize rstrip l1 = r at h ht
+  unfold dq at h
+  have hx : xmldecl.toList = ['<', '?', 'x', 'm', 'l', ' '] ++ "version=\"1.0\" encoding=\"UTF-8\"?>".toList := by decide
+  rw [hx] at h
+  rcases r with _ | ⟨c1, _ | ⟨c2, _ | ⟨c3, _ | ⟨c4, _ | ⟨c5, _ | ⟨c6, rest⟩⟩⟩⟩⟩⟩
+  iterate 6 simp at h
+  · simp only [List.map_cons, List.cons_append, List.nil_append, List.cons.injEq] at h
+    obtain ⟨h1, h2, h3, h4, h5, h6, _⟩ := h
+    have e1 := dq_eq_of_ne c1 '<' (by decide) h1
+    have e2 := dq_eq_of_ne c2 '?' (by decide) h2
+    have e3 := dq_eq_of_ne c3 'x' (by decide) h3
+    have e4 := dq_eq_of_ne c4 'm' (by decide) h4
+    have e5 := dq_eq_of_ne c5 'l' (by decide) h5
+    have e6 := dq_eq_of_ne c6 ' ' (by decide) h6
+    subst e1 e2 e3 e4 e5 e6
+    rw [ht]
+    have : "<?xml ".toList = ['<', '?', 'x', 'm', 'l', ' '] := by decide
+    unfold isXml
+    rw [this]
+    simp [List.isPrefixOf]
+
+/-- `is_lmf()` is true exactly for the files whose header `load()` accepts -/
+theorem C20_islmf_iff_header (l1 l2 : List Char) : isLmf l1 l2 = true ↔ (readHeader l1 l2).isSome = true := by
+  unfold isLmf
+  constructor
+  · intro h; simp only [Bool.and_eq_true] at h; exact h.2
+  · intro h
+    simp only [Bool.and_eq_true]
+    refine ⟨?_, h⟩
+    unfold readHeader at h
+    split at h
+    · simp at h
+    · rename_i hne
+      apply header_isXml
+      simpa using hne
+
+/-- an accepted header names a supported version, and the second line is that version's DOCTYPE
+(modulo trailing whitespace and the kind of quotes) -/
+theorem C20_header_version (l1 l2 : List Char) (v : String) (h : readHeader l1 l2 = some v) :
+    v ∈ versions ∧ dq (rstrip l1) = xmldecl.toList ∧ dq (rstrip l2) = (doctypeOf v).toList := by
+  unfold readHeader at h
+  split at h
+  · simp at h
+  · rename_i hne
+    have h1 := List.mem_of_find?_eq_some h
+    have h2 := List.find?_some h
+    exact ⟨h1, by simpa using hne, by simpa using h2⟩
+
+/-- without the XML declaration, or without a supported DOCTYPE, the header is rejected -/
+theorem C20_header_rejects_no_decl (l1 l2 : List Char) (h : dq (rstrip l1) ≠ xmldecl.toList) : readHeader l1 l2 = none := by
+  unfold readHeader; simp [h]
+theorem C20_header_rejects_no_doctype (l1 l2 : List Char) (h : ∀ v ∈ versions, dq (rstrip l2) ≠ (doctypeOf v).toList) :
+    readHeader l1 l2 = none := by
+  unfold readHeader
+  split
+  · rfl
+  · rw [List.find?_eq_none]
+    intro v hv
+    simpa using h v hv
+
+/-! ### structure: unknown elements and repeated single-valued children -/
+
+/-- `s` is `t` or nested somewhere inside it -/
+inductive Sub : Xml → Xml → Prop
+  | refl (t) : Sub t t
+  | child {s c t} : c ∈ t.children → Sub s c → Sub s t
+
+theorem allOk_mem (v : String) : ∀ (cs : List Xml), allOk v cs = true → ∀ c ∈ cs, treeOk v c = true := by
+  intro cs
+  induction cs with
+  | nil => intro _ c hc; simp at hc
+  | cons a t ih =>
+    intro h c hc
+    simp only [allOk, Bool.and_eq_true] at h
+    rcases List.mem_cons.mp hc with rfl | hc
+    · exact h.1
+    · exact ih h.2 c hc
+
+theorem treeOk_children (v : String) (t : Xml) (h : treeOk v t = true) :
+    childrenOk v t.children = true ∧ ∀ c ∈ t.children, treeOk v c = true := by
+  cases t with
+  | elem n a tx cs =>
+    simp only [treeOk, Bool.and_eq_true] at h
+    exact ⟨h.1, allOk_mem v cs h.2⟩
+
+theorem treeOk_sub (v : String) (s t : Xml) (hs : Sub s t) (h : treeOk v t = true) : childrenOk v s.children = true := by
+  revert h
+  induction hs with
+  | refl => intro h; exact (treeOk_children v _ h).1
+  | child hc _ ih => intro h; exact ih ((treeOk_children v _ h).2 _ hc)
+
+/-- a document using, at any depth, an element that does not exist in its declared version is
+rejected -/
+theorem C20_unknown_element_rejected (v : String) (t s c : Xml) (hs : Sub s t) (hc : c ∈ s.children)
+    (hbad : c.name ∉ validElems v) : ∃ e, loadTree v t = .error e := by
+  have hnot : treeOk v (.elem "" [] "" [t]) = false := by
+    cases hok : treeOk v (.elem "" [] "" [t]) with
+    | false => rfl
+    | true =>
+      have h1 := (treeOk_children v _ hok).2 t (by simp [Xml.children])
+      have h2 := treeOk_sub v s t hs h1
+      unfold childrenOk at h2
+      simp only [Bool.and_eq_true, List.all_eq_true, List.contains_iff_mem] at h2
+      exact absurd (h2.1 c hc) hbad
+  unfold loadTree
+  by_cases hn : t.name != "LexicalResource"
+  · exact ⟨_, by simp [hn]; rfl⟩
+  · simp only [hn, hnot]
+    exact ⟨_, rfl⟩
+
+/-- the root itself must be an element of the version (and be `LexicalResource`) -/
+theorem C20_root_checked (v : String) (t : Xml) (h : t.name ≠ "LexicalResource") : ∃ e, loadTree v t = .error e := by
+  unfold loadTree
+  have : (t.name != "LexicalResource") = true := by simpa using h
+  simp only [this]
+  exact ⟨_, rfl⟩
+
+theorem nodupB_nodup : ∀ (l : List String), nodupB l = true → l.Nodup := by
+  intro l
+  induction l with
+  | nil => intro _; simp
+  | cons a t ih =>
+    intro h
+    simp only [nodupB, Bool.and_eq_true, Bool.not_eq_eq_eq_not, Bool.not_true] at h
+    rw [List.nodup_cons]
+    exact ⟨by simpa using h.1, ih h.2⟩
+
+/-- a parent with two children stored under the same single-valued key (two `Lemma`s, a `Lemma` and
+an `ExternalLemma`, two `ILIDefinition`s, two `Extends`) is rejected -/
+theorem C20_repeated_single_rejected (v : String) (t s : Xml) (hs : Sub s t)
+    (hdup : ¬ ((s.children.filter (fun c => singleValued c.name)).map (fun c => keyOf c.name)).Nodup) :
+    ∃ e, loadTree v t = .error e := by
+  have hnot : treeOk v (.elem "" [] "" [t]) = false := by
+    cases hok : treeOk v (.elem "" [] "" [t]) with
+    | false => rfl
+    | true =>
+      have h1 := (treeOk_children v _ hok).2 t (by simp [Xml.children])
+      have h2 := treeOk_sub v s t hs h1
+      unfold childrenOk at h2
+      simp only [Bool.and_eq_true] at h2
+      exact absurd (nodupB_nodup _ h2.2) hdup
+  unfold loadTree
+  by_cases hn : t.name != "LexicalResource"
+  · exact ⟨_, by simp [hn]; rfl⟩
+  · simp only [hn, hnot]
+    exact ⟨_, rfl⟩
+
+/-! ### required identifying attributes -/
+
+theorem reqAttr_missing (x : Xml) (k : String) (h : attr x k = none) : ∃ e, reqAttr x k = .error e := by
+  unfold reqAttr; rw [h]; exact ⟨_, rfl⟩
+
+/-- a `Lexicon` / `LexiconExtension` without `id` (or `version`) is rejected, whatever else it contains -/
+theorem C20_lexicon_without_id_rejected (x : Xml) (h : attr x "id" = none) : ∃ e, loadLexicon x = .error e := by
+  obtain ⟨e, he⟩ := reqAttr_missing x "id" h
+  unfold loadLexicon
+  simp only [bind, Except.bind, he]
+  repeat' split
+  all_goals exact ⟨_, rfl⟩
+
+theorem C20_lexicon_without_version_rejected (x : Xml) (h : attr x "version" = none) : ∃ e, loadLexicon x = .error e := by
+  obtain ⟨e, he⟩ := reqAttr_missing x "version" h
+  unfold loadLexicon
+  simp only [bind, Except.bind, he]
+  repeat' split
+  all_goals exact ⟨_, rfl⟩
+
+/-- an entry, sense or synset without `id` is rejected -/
+theorem C20_sense_without_id_rejected (x : Xml) (h : attr x "id" = none) : ∃ e, loadSense x = .error e := by
+  obtain ⟨e, he⟩ := reqAttr_missing x "id" h
+  unfold loadSense
+  simp only [bind, Except.bind, he]
+  repeat' split
+  all_goals exact ⟨_, rfl⟩
+
+theorem C20_synset_without_id_rejected (b : Bool) (x : Xml) (h : attr x "id" = none) : ∃ e, loadSynset b x = .error e := by
+  obtain ⟨e, he⟩ := reqAttr_missing x "id" h
+  unfold loadSynset
+  simp only [bind, Except.bind, he]
+  repeat' split
+  all_goals first | exact ⟨_, rfl⟩ | (simp only [throw, throwThe, MonadExcept.throw]; exact ⟨_, rfl⟩)
+
+theorem C20_entry_without_id_rejected (b : Bool) (x : Xml) (h : attr x "id" = none) : ∃ e, loadEntry b x = .error e := by
+  obtain ⟨e, he⟩ := reqAttr_missing x "id" h
+  unfold loadEntry
+  simp only [bind, Except.bind, he]
+  repeat' split
+  all_goals first | exact ⟨_, rfl⟩ | (simp only [throw, throwThe, MonadExcept.throw]; exact ⟨_, rfl⟩)
+
+/-- errors propagate: if any lexicon of the document is rejected, the whole load is rejected -/
+theorem mapM_error {α β} (f : α → R β) : ∀ (l : List α) (a : α), a ∈ l → (∃ e, f a = .error e) → ∃ e, l.mapM f = .error e := by
+  intro l
+  induction l with
+  | nil => intro a ha; simp at ha
+  | cons b t ih =>
+    intro a ha he
+    rw [List.mapM_cons]
+    rcases List.mem_cons.mp ha with rfl | ha
+    · obtain ⟨e, he⟩ := he
+      exact ⟨e, by simp [bind, Except.bind, he]⟩
+    · obtain ⟨e, he'⟩ := ih a ha he
+      cases hb : f b with
+      | error e0 => exact ⟨e0, by simp [bind, Except.bind]⟩
+      | ok vb => exact ⟨e, by simp [bind, Except.bind, he']⟩
+
+theorem C20_rejected_as_a_whole (v : String) (t x : Xml) (hx : x ∈ kids t ["Lexicon", "LexiconExtension"])
+    (hbad : ∃ e, loadLexicon x = .error e) : ∃ e, loadTree v t = .error e := by
+  obtain ⟨e, he⟩ := mapM_error loadLexicon _ x hx hbad
+  unfold loadTree
+  simp only [bind, Except.bind, he]
+  repeat' split
+  all_goals first | exact ⟨_, rfl⟩ | (simp only [throw, throwThe, MonadExcept.throw]; exact ⟨_, rfl⟩)
+
 end WnVerif.Props.C20
